@@ -446,3 +446,37 @@ def qual_of(mod, node):
             parts.append(n.name)
         n = getattr(n, '_parent', None)
     return '.'.join(reversed(parts)) or '<module>'
+
+
+def concat_terms(e):
+    """Terms of a string concatenation written as a + b, '%s%s' % (a, b), f'{a}{b}' or ''.join([a, b]);
+    None when the expression is not such a concatenation.  Constant pieces are returned as repr()."""
+    if isinstance(e, ast.BinOp) and isinstance(e.op, ast.Add):
+        l, r = concat_terms(e.left), concat_terms(e.right)
+        if l is None or r is None:
+            return None
+        return l + r
+    if isinstance(e, ast.BinOp) and isinstance(e.op, ast.Mod) and isinstance(e.left, ast.Constant) \
+            and isinstance(e.left.value, str) and e.left.value.replace('%s', '') == '':
+        args = e.right.elts if isinstance(e.right, ast.Tuple) else [e.right]
+        if len(args) == e.left.value.count('%s'):
+            return [norm(a) for a in args]
+        return None
+    if isinstance(e, ast.JoinedStr):
+        out = []
+        for v in e.values:
+            if isinstance(v, ast.Constant):
+                if v.value:
+                    out.append(repr(v.value))
+            elif isinstance(v, ast.FormattedValue) and v.conversion == -1 and v.format_spec is None:
+                out.append(norm(v.value))
+            else:
+                return None
+        return out
+    if isinstance(e, ast.Call) and isinstance(e.func, ast.Attribute) and e.func.attr == 'join' \
+            and isinstance(e.func.value, ast.Constant) and e.func.value.value == '' and len(e.args) == 1 \
+            and isinstance(e.args[0], (ast.List, ast.Tuple)):
+        return [norm(x) for x in e.args[0].elts]
+    if isinstance(e, ast.Constant) and isinstance(e.value, str):
+        return [repr(e.value)] if e.value else []
+    return [norm(e)]
